@@ -838,3 +838,49 @@ func runC07(w *World, r *Report) {
 		}
 	}
 }
+
+// everyItemPasses generalises everyItemReaches to an arbitrary "processed" predicate.
+func everyItemPasses(fn *ssa.Function, rv *ssa.UnOp, processed func(ssa.Instruction) bool) bool {
+	var okv, item ssa.Value
+	for _, ref := range *rv.Referrers() {
+		if e, ok := ref.(*ssa.Extract); ok {
+			if e.Index == 1 {
+				okv = e
+			} else {
+				item = e
+			}
+		}
+	}
+	if okv == nil {
+		return false
+	}
+	var skip []Edge
+	instrsOf(fn, func(in ssa.Instruction) {
+		if l, ok := in.(*ssa.Lookup); ok && l.CommaOk && item != nil && sameVal(l.Index, item) {
+			if _, isLocal := strip(l.X).(*ssa.MakeMap); isLocal {
+				for _, ref := range *l.Referrers() {
+					if e, ok := ref.(*ssa.Extract); ok && e.Index == 1 {
+						skip = append(skip, trueEdges(fn, e)...)
+					}
+				}
+			}
+		}
+	})
+	bad := 0
+	for _, te := range trueEdges(fn, okv) {
+		walkFrom(nil, te.To(), edgeSet(skip), func(x ssa.Instruction) bool {
+			if processed(x) {
+				return true
+			}
+			if _, ok := x.(*ssa.Return); ok {
+				return true
+			}
+			if x == ssa.Instruction(rv) {
+				bad++
+				return true
+			}
+			return false
+		})
+	}
+	return bad == 0
+}
